@@ -605,6 +605,8 @@ def check(ctx, rep):
     rep.rule("R03c", "handler lookup never falls through silently", floor=1)
     rep.rule("R03d", "history independence: persistent writes are exactly the two cache files; module-level state is only lazily initialised from configuration, never mutated per request", floor=2)
     rep.rule("R03f", "the stat performed on a still unfiltered selector catches ValueError (embedded NUL) as well as OSError", floor=1)
+    rep.rule("R03j", "= R05g: every URL protocol hands the handlers the decoded, slash-normalised selector (a selector with a trailing slash makes "
+             "the directory handler cache an empty listing under the directory's own cache file: later requests would depend on it)", floor=3)
     rep.rule("R03g", "status lines echo request text only after line breaks were collapsed", floor=2)
     rep.rule("R03h", "a Gopher+ `+N` status line announces the number of bytes that follow: transforming handlers leave the size unset, menus use the unknown-length marker", floor=5)
     rep.rule("R03i", "partial operations on text read from content files (link files, gophermaps, sidecars): index, unpack, int() are guarded", floor=8)
@@ -730,6 +732,11 @@ def check(ctx, rep):
     shared_state_obligations(ctx, rep, "R03d", eff, request_functions(ctx, eff), sequential=True)
 
     pregate_stat_obligations(ctx, rep, "R03f", eff)
+
+    # ------------------------------------------------------------------ R03j (= R05g)
+    from .c05 import request_target_evaluation
+
+    request_target_evaluation(ctx, rep, "R03j")
 
     # ------------------------------------------------------------------ R03h (shared with C04/C15)
     from .c04 import length_obligations
